@@ -211,6 +211,13 @@ def decodeFrom : DState → List Nat → Except DErr (List Nat)
 
 def decodeEscapes (s : List Nat) : Except DErr (List Nat) := decodeFrom .plain s
 
+/-- no backslash in escape position is directly followed by a non-ASCII code point (the shape of finding F13:
+    `backslashreplace` would turn that code point into an escape of its own) -/
+def f13Free : List Nat → Bool
+  | [] => true
+  | 92 :: c :: r => decide (c < 128) && f13Free r
+  | _ :: r => f13Free r
+
 /-- what `wrap` does with the text between the quotes (lexer.py:652-656) -/
 def unescapeBody (body : List Nat) : Except DErr (List Nat) :=
   decodeEscapes (encodeAscii (normNl body))
